@@ -490,6 +490,28 @@ func ruleC11b(c *Ctx) []*report.Result {
 					r.Ok(construct + " in a type-variable arm @" + pos)
 					continue
 				}
+				// the value is a parameter of an unexported helper all of
+				// whose callers establish the kind before the call
+				if vp, isParam := recv.(*ssa.Parameter); isParam && fn.Object() != nil && !fn.Object().Exported() {
+					pi := paramIndex(fn, vp)
+					n, okAll := 0, true
+					for _, g := range c.P.ModuleFunctions() {
+						for _, gb := range g.Blocks {
+							for _, gi := range gb.Instrs {
+								if ci, ok := gi.(ssa.CallInstruction); ok && ci.Common().StaticCallee() == fn && pi < len(ci.Common().Args) {
+									n++
+									if !kindEstablished(g, ci.Common().Args[pi], gb, adm) {
+										okAll = false
+									}
+								}
+							}
+						}
+					}
+					if n > 0 && okAll {
+						r.Ok(construct + " in a helper whose callers test Kind() @" + pos)
+						continue
+					}
+				}
 				r.Fail(construct, pos, f.Name()+" is called on a reflect.Value whose kind is not established on every path to the call: it panics for other kinds (admissible: "+strings.Join(adm, ", ")+")", nil, "")
 			}
 		}
